@@ -200,8 +200,12 @@ func (fr *Frame) analyseLoopMods(li *loopInfo) {
 	for _, b := range fr.fn.Blocks {
 		for _, in := range b.Instrs {
 			if mc, ok := in.(*ssa.MakeClosure); ok {
-				for _, bv := range mc.Bindings {
+				cf, _ := mc.Fn.(*ssa.Function)
+				for i, bv := range mc.Bindings {
 					if a := rootAlloc(bv); a != nil {
+						if cf != nil && i < len(cf.FreeVars) && onlyRead(cf.FreeVars[i]) {
+							continue // the closure only reads this variable
+						}
 						closureCells[a] = true
 					}
 				}
@@ -255,6 +259,34 @@ func (fr *Frame) analyseLoopMods(li *loopInfo) {
 			li.modCell[a] = true
 		}
 	}
+}
+
+// onlyRead: every use of the address v (a captured variable, or a field/element address derived from it) is a load.
+func onlyRead(v ssa.Value) bool {
+	refs := v.Referrers()
+	if refs == nil {
+		return false
+	}
+	for _, r := range *refs {
+		switch x := r.(type) {
+		case *ssa.UnOp:
+			if x.Op != token.MUL {
+				return false
+			}
+		case *ssa.FieldAddr:
+			if x.X != v || !onlyRead(x) {
+				return false
+			}
+		case *ssa.IndexAddr:
+			if x.X != v || !onlyRead(x) {
+				return false
+			}
+		case *ssa.DebugRef:
+		default:
+			return false
+		}
+	}
+	return true
 }
 
 func (fr *Frame) storeKeys(addr ssa.Value, li *loopInfo) {
